@@ -4790,6 +4790,10 @@ class FST:
                     return self
 
         else:
+            for deco in getattr(self.a, 'decorator_list', ()):  # decorators are not part of our `loc`, location may be in one
+                if f := deco.f.find_contains_loc(ln, col, end_ln, end_col, allow_exact):
+                    return f
+
             return None
 
         while True:
@@ -4799,11 +4803,15 @@ class FST:
                 if fend_ln < ln or (fend_ln == ln and fend_col <= col):
                     continue
 
-                if (fln > ln
-                    or ((same_ln := fln == ln) and fcol > col)
-                    or fend_ln < end_ln
-                    or ((same_end_ln := fend_ln == end_ln) and fend_col < end_col)
-                ):
+                if fln > ln or ((same_ln := fln == ln) and fcol > col):
+                    bln, bcol, _, _ = f.bloc
+
+                    if bln < ln or (bln == ln and bcol <= col):  # location starts in decorators of `f`, those are not part of its `loc` and come next in the walk
+                        continue
+
+                    return self
+
+                if fend_ln < end_ln or ((same_end_ln := fend_ln == end_ln) and fend_col < end_col):
                     return self
 
                 if same_ln and same_end_ln and fcol == col and fend_col == end_col:
